@@ -9,6 +9,7 @@ import DimodProofs.JsonContracts
 import DimodProofs.HeaderContracts
 import DimodProofs.ZipEnd
 import DimodProofs.CqmDirs
+import DimodProofs.CqmClosed
 
 /-! # C09 — binary model files load back as the identical model
 
@@ -519,5 +520,101 @@ example : ExprWF (J := Nat)
 /-- the two archive contracts are satisfiable (an "archive" that is its own byte string) -/
 example (body : Bytes) : ContainerContract (fun b => if b = body then some b else none) body body :=
   ⟨by simp, fun j hj => by simp [take_ne_of_lt hj]⟩
+
+/-! ## round 7: the ZIP container at byte level; the CQM file closed end to end -/
+
+/-- **the modelled `zipfile` reader reads back what the modelled `zipfile` writer appended** to a file of
+    `pre.length` bytes (for dimod: the header): local file headers, central directory and end record as
+    `ZipFile(file, mode='a')` lays them out; `_RealGetContents` walks the directory, `ZipFile.open` checks each
+    local header against it and the CRC-32 of what it read.  `ZIP_STORED` members need nothing else;
+    `ZIP_DEFLATED` members only the codec contract inside `ZEntry.OK` (`inflate stored = some content`).
+    This is the equation `cqm_file_roundtrip_zip` assumed of `readDir`. -/
+theorem zip_reader_reads_writer (crc32 : Bytes → Nat) (inflate : Bytes → Option Bytes) (pre : Bytes) (zs : List ZEntry)
+    (hz : ∀ z ∈ zs, z.OK crc32 inflate) (hcount : zs.length < 256 ^ 2)
+    (hsize : pre.length + (zipLocals zs).length + (zipCD pre.length zs).length < 4294967295) :
+    readDirBytes crc32 inflate
+      ⟨(pre ++ (zipLocals zs ++ zipCD pre.length zs)).length,
+        eocdRecord zs.length (zipCD pre.length zs).length (pre.length + (zipLocals zs).length)⟩
+      ((pre ++ (zipLocals zs ++ zipCD pre.length zs)) ++
+        eocdRecord zs.length (zipCD pre.length zs).length (pre.length + (zipLocals zs).length)) =
+      some (zs.map fun z => (z.name, z.content)) :=
+  readDirBytes_zipBytes crc32 inflate pre zs hz hcount hsize
+
+/-- … and the whole archive opens: `_EndRecData` finds the record the writer put at the end, `_RealGetContents`
+    accepts it (`concat = 0`), every member is read back. -/
+theorem zip_open_reads_writer (crc32 : Bytes → Nat) (inflate : Bytes → Option Bytes) (pre : Bytes) (zs : List ZEntry)
+    (hz : ∀ z ∈ zs, z.OK crc32 inflate) (hcount : zs.length < 256 ^ 2)
+    (hsize : pre.length + (zipLocals zs).length + (zipCD pre.length zs).length < 4294967295) :
+    zipOpen (readDirBytes crc32 inflate) (pre ++ zipBytes pre.length zs) = some (zs.map fun z => (z.name, z.content)) := by
+  have h256 : (256 : Nat) ^ 4 = 4294967296 := by decide
+  obtain ⟨a, b, c⟩ := eocdRecord_shape zs.length (zipCD pre.length zs).length (pre.length + (zipLocals zs).length)
+  obtain ⟨d, _, _⟩ := eocdRecord_fields zs.length (zipCD pre.length zs).length (pre.length + (zipLocals zs).length)
+    (pre ++ (zipLocals zs ++ zipCD pre.length zs)).length (by omega) (by omega) hcount
+  have hfile : pre ++ zipBytes pre.length zs = (pre ++ (zipLocals zs ++ zipCD pre.length zs)) ++
+      eocdRecord zs.length (zipCD pre.length zs).length (pre.length + (zipLocals zs).length) := by
+    simp [zipBytes, List.append_assoc]
+  rw [hfile]
+  exact zipOpen_full _ _ _ _ a b c (by rw [d]; simp only [List.length_append]; omega) (readDirBytes_zipBytes crc32 inflate pre zs hz hcount hsize)
+
+/-- **CQM files, closed: `load (dump cqm) = some cqm`.**  For every CQM in the format's domain (`CqmSrc.InDomain`:
+    sizes agree and fit their length fields, float64 right-hand sides and weights, float labels in `repr` form,
+    pairwise different constraint directory names, header dictionaries below 4 GiB) and every choice of what the
+    reader ignores (`μ`: time stamps, versions, attributes, zip64-style local size fields and extra fields):
+    the bytes `ConstrainedQuadraticModel.to_file(compress=…)` writes — header dictionary by the modelled
+    `json.dumps`, members by the member models, local headers / central directory / end record by the byte-level
+    ZIP writer — load back through the whole modelled `from_file` (`read_header`, `_EndRecData` on the whole file,
+    directory walk, per-member local header and CRC-32 check, `cqmDecodeChecked` with the header consistency
+    check, `json.loads` + `deserialize_variable` on every directory name and on `variable_labels.json`) to
+    exactly the CQM: variable info, variable labels, objective, and every constraint's label, left-hand side,
+    right-hand side, sense, discrete mark, weight and penalty, in order.
+    No parse function, `okLabel` or directory reader is a parameter.  Left opaque: `crc32` (checked: the reader
+    compares), and for `compress=True` the codec (`hcodec`: `inflate (deflate b) = some b`). -/
+theorem cqm_file_roundtrip_closed (crc32 : Bytes → Nat) (inflate : Bytes → Option Bytes) (deflate : Option (Bytes → Bytes))
+    (μ : Nat → ZMeta) (s : CqmSrc) (hd : s.InDomain)
+    (hcrc : ∀ b, crc32 b < 256 ^ 4) (hcodec : ∀ d, deflate = some d → ∀ b, inflate (d b) = some b) (hμ : ∀ i, (μ i).OK)
+    (hfit : ∀ m ∈ cqmMembers 4 s.content, MemberFits deflate m) (hcount : (cqmMembers 4 s.content).length < 256 ^ 2)
+    (hsize : (dumpCqm crc32 deflate μ s).length < 4294967295) :
+    loadCqmSrc crc32 inflate (dumpCqm crc32 deflate μ s) = some s := by
+  have h256 : (256 : Nat) ^ 4 = 4294967296 := by decide
+  have hzs := mkEntries_ok crc32 inflate deflate μ hcrc hcodec hμ (cqmMembers 4 s.content) 0 hfit
+  have hlenz := mkEntries_length crc32 deflate μ (cqmMembers 4 s.content) 0
+  generalize hzdef : mkEntries crc32 deflate μ 0 (cqmMembers 4 s.content) = zs at hzs hlenz
+  have hdump : dumpCqm crc32 deflate μ s = cqmFileHeader s ++ zipBytes (cqmFileHeader s).length zs := by rw [dumpCqm, hzdef]
+  rw [hdump] at hsize ⊢
+  have hsz : (cqmFileHeader s).length + (zipLocals zs).length + (zipCD (cqmFileHeader s).length zs).length < 4294967295 := by
+    simp only [zipBytes, List.length_append] at hsize; omega
+  obtain ⟨a, b, c⟩ := eocdRecord_shape zs.length (zipCD (cqmFileHeader s).length zs).length ((cqmFileHeader s).length + (zipLocals zs).length)
+  obtain ⟨d, _, _⟩ := eocdRecord_fields zs.length (zipCD (cqmFileHeader s).length zs).length ((cqmFileHeader s).length + (zipLocals zs).length)
+    (cqmFileHeader s ++ (zipLocals zs ++ zipCD (cqmFileHeader s).length zs)).length (by omega) (by omega) (by omega)
+  have hread : readDirChars crc32 inflate
+      ⟨(cqmFileHeader s ++ (zipLocals zs ++ zipCD (cqmFileHeader s).length zs)).length,
+        eocdRecord zs.length (zipCD (cqmFileHeader s).length zs).length ((cqmFileHeader s).length + (zipLocals zs).length)⟩
+      ((cqmFileHeader s ++ (zipLocals zs ++ zipCD (cqmFileHeader s).length zs)) ++
+        eocdRecord zs.length (zipCD (cqmFileHeader s).length zs).length ((cqmFileHeader s).length + (zipLocals zs).length)) =
+      some (cqmMembers 4 s.content) := by
+    unfold readDirChars
+    rw [readDirBytes_zipBytes crc32 inflate (cqmFileHeader s) zs hzs (by omega) hsz, ← hzdef, mkEntries_members]
+    simp only [Option.map_some]
+    rw [asciiRoundtrip_members _ (cqmMembers_ascii 4 s.content fun c hc => by
+      obtain ⟨c0, hc0, rfl⟩ := List.mem_map.mp hc
+      exact labelText_ascii c0.label (hd.cons c0 hc0).2.2.2.2)]
+  have hload := cqm_file_roundtrip_zip (readDirChars crc32 inflate) parseExprHeader (fun d => (loadsJ d).isSome) 4 8 s.content
+    (zipLocals zs ++ zipCD (cqmFileHeader s).length zs)
+    (eocdRecord zs.length (zipCD (cqmFileHeader s).length zs).length ((cqmFileHeader s).length + (zipLocals zs).length))
+    hd.cqmWF hd.hdrLen a b c
+    (by show (EndRec.mk (cqmFileHeader s ++ (zipLocals zs ++ zipCD (cqmFileHeader s).length zs)).length _).sizeCd ≤
+          (cqmFileHeader s ++ (zipLocals zs ++ zipCD (cqmFileHeader s).length zs)).length
+        rw [d]; simp only [List.length_append]; omega) hread
+  have hfile : cqmFileHeader s ++ zipBytes (cqmFileHeader s).length zs =
+      makeHeader cqmPrefix 2 0 (cqmHeaderText (cqmCounts s.content.erase)) ++ ((zipLocals zs ++ zipCD (cqmFileHeader s).length zs) ++
+        eocdRecord zs.length (zipCD (cqmFileHeader s).length zs).length ((cqmFileHeader s).length + (zipLocals zs).length)) := by
+    simp [zipBytes, cqmFileHeader, List.append_assoc]
+  unfold loadCqmSrc loadCqm
+  rw [hfile, hload]
+  have hc : srcConstraints s.content.erase.constraints = some s.constraints :=
+    srcConstraints_content s.constraints (fun c hc => (hd.cons c hc).2.2.2.2)
+  have hl : srcLabels s.content.erase.labelsText = some s.labels := srcLabels_content s.labels hd.labelsOK
+  simp only [hc, hl]
+  rfl
 
 end C09
